@@ -1,7 +1,10 @@
 import HappyProofs.C10.TuaWin
 import HappyProofs.C10.TuaSpecAD
 import HappyProofs.C10.AdaptiveCredit
+import HappyProofs.C10.PropsAdaptive
 import HappyProofs.C10.EntityInv
+import HappyProofs.C10.EntityPoll
+import HappyProofs.C10.Distributed
 /-!
 # C10 — property theorems
 
@@ -446,5 +449,114 @@ example :
       = [(0, 0), (1, 4), (2, 8)] ∧
     (Ent.final (tbPolicy ⟨4, 1, 4⟩) 10 ⟨4, none⟩ [.req 0 0, .req 1 1, .req 2 4, .poll 4, .poll 8]).queue = [] ∧
     (reqIds [.req 0 0, .req 1 1, .req 2 4, .poll 4, .poll 8]).Nodup := by decide
+
+/-! ## the drain never stalls (entity level), and the Inductor -/
+
+/-- **The drain never stalls**, for any policy that answers a refusal with a positive wait, any queue
+    capacity and any schedule of deliveries: no poll event is scheduled in the past, a poll that forwards
+    nothing is re-armed strictly later, at most one poll event is outstanding, and whatever is still
+    queued at the end has a poll event coming for it. -/
+theorem entity_drain_never_stalls {σ : Type} (P : Policy σ) (hP : RefusalWaits P) (qcap : Nat) (s0 : σ)
+    (acts : List Act) :
+    noStallOK (Ent.trace P qcap (Ent.init s0) acts) = true ∧
+    singlePollOK none (Ent.trace P qcap (Ent.init s0) acts) = true ∧
+    pollCoverOK (Ent.trace P qcap (Ent.init s0) acts) (Ent.final P qcap s0 acts).queue.length = true := by
+  refine ⟨noStall_trace P hP qcap acts _, singlePoll_trace P qcap acts (Ent.init s0), ?_⟩
+  have hc := run_covered P qcap acts (Ent.init s0) (by intro h; exact absurd rfl h)
+  have ho := outstanding_trace P qcap acts (Ent.init s0)
+  simp only [pollCoverOK, Bool.or_eq_true, beq_iff_eq]
+  by_cases hq : (Ent.final P qcap s0 acts).queue = []
+  · left; simp [hq]
+  · right
+    have : (Ent.init s0).poll = none := rfl
+    rw [this] at ho
+    rw [ho]; exact hc hq
+
+/-- the token, leaky and adaptive buckets and the Inductor's gate all answer a refusal with a positive
+    wait (the 1 ns progress guard) -/
+theorem refusal_waits_policies :
+    (∀ c, RefusalWaits (tbPolicy c)) ∧ (∀ c, RefusalWaits (lbPolicy c)) ∧ (∀ c, RefusalWaits (adPolicy c)) ∧
+    RefusalWaits orcPolicy :=
+  ⟨tb_refusalWaits, lb_refusalWaits, ad_refusalWaits, orc_refusalWaits⟩
+
+/-- **Inductor** (`Ent` over the oracle gate, any decisions `ds`, any truncated intervals `ws`): every
+    event is forwarded, queued or dropped exactly once, forwarding follows arrival order, and its drain
+    never stalls. -/
+theorem inductor_exactly_once_fifo_drains (qcap : Nat) (o : Orc) (acts : List Act) :
+    ((Ent.final orcPolicy qcap o acts).F ++ (Ent.final orcPolicy qcap o acts).queue ++
+        (Ent.final orcPolicy qcap o acts).D).Perm (reqIds acts) ∧
+    fifoOK (reqIds acts) (Ent.final orcPolicy qcap o acts).F = true ∧
+    noStallOK (Ent.trace orcPolicy qcap (Ent.init o) acts) = true ∧
+    pollCoverOK (Ent.trace orcPolicy qcap (Ent.init o) acts) (Ent.final orcPolicy qcap o acts).queue.length = true :=
+  ⟨entity_exactly_once orcPolicy qcap o acts, (entity_fifo orcPolicy qcap o acts).2,
+   (entity_drain_never_stalls orcPolicy orc_refusalWaits qcap o acts).1,
+   (entity_drain_never_stalls orcPolicy orc_refusalWaits qcap o acts).2.2⟩
+
+/-- the gate refuses twice (the second time at the poll) and the smoothed interval has truncated to
+    0 ns: the poll is re-armed 1 ns later, not at the same instant; event 1 leaves before event 2 -/
+example :
+    Ent.trace orcPolicy 10 (Ent.init ⟨[true, false, false, false, true, true], [0, 0, 5]⟩)
+      [.req 0 0, .req 1 0, .req 2 0, .poll 1, .poll 2, .poll 7] =
+    [⟨false, 0, true, none⟩, ⟨false, 0, false, some 1⟩, ⟨false, 0, false, none⟩,
+     ⟨true, 1, false, some 2⟩, ⟨true, 2, true, some 7⟩, ⟨true, 7, true, none⟩] ∧
+    (Ent.final orcPolicy 10 ⟨[true, false, false, false, true, true], [0, 0, 5]⟩
+      [.req 0 0, .req 1 0, .req 2 0, .poll 1, .poll 2, .poll 7]).F = [0, 1, 2] := by decide
+example : noStallOK [⟨true, 1, false, some 1⟩] = false ∧ noStallOK [⟨true, 1, true, some 1⟩] = true ∧
+    pollCoverOK [⟨false, 0, false, some 1⟩, ⟨true, 1, false, none⟩] 1 = false := by decide
+
+/-! ## the distributed rate limiter -/
+
+/-- **DistributedRateLimiter, exactly once**: any number of instances, any limit and window, **any
+    interleaving** of the generators' segments: forwarded ⊎ in flight ⊎ dropped = received. -/
+theorem drl_exactly_once (W N n : Nat) (acts : List DAct) :
+    ((DRL.run W N (DRL.init n) acts).F ++ (DRL.run W N (DRL.init n) acts).I ++
+      (DRL.run W N (DRL.init n) acts).dropped).Perm (dReqIds acts) := by
+  have hi := DRL.run_inv W N acts (DRL.init n) (by intro x; simp [DRL.init, DRL.F, DRL.I])
+  have hr := DRL.run_recv W N acts (DRL.init n)
+  rw [List.perm_iff_count]
+  intro x
+  have := hi x
+  rw [hr] at this
+  simpa [DRL.init] using this
+
+/-- with distinct request ids the executable Spec predicate holds of the model's logs -/
+theorem drl_exactly_once_spec (W N n : Nat) (acts : List DAct) (hd : (dReqIds acts).Nodup) :
+    drlExactlyOnceOK (dReqIds acts) (DRL.run W N (DRL.init n) acts).F (DRL.run W N (DRL.init n) acts).dropped
+      (DRL.run W N (DRL.init n) acts).I = true := by
+  have hp := drl_exactly_once W N n acts
+  generalize DRL.run W N (DRL.init n) acts = s at *
+  have hp2 : (s.F ++ s.dropped ++ s.I).Perm (dReqIds acts) := by
+    refine List.Perm.trans ?_ hp
+    rw [List.append_assoc, List.append_assoc]
+    exact List.Perm.append_left _ List.perm_append_comm
+  have hlen := hp2.length_eq
+  simp only [drlExactlyOnceOK, Bool.and_eq_true, nodupB_iff, List.all_eq_true, List.contains_iff_mem,
+    decide_eq_true_eq]
+  refine ⟨⟨hp2.nodup_iff.mpr hd, fun x hx => hp2.mem_iff.mp hx⟩, ?_⟩
+  simp only [List.length_append] at hlen; omega
+
+/-- **DistributedRateLimiter, per-window limit without overlap**: when every request's
+    read-modify-write cycle completes before the next request arrives (any instances, any times), the
+    shared counter of every window equals the number of requests forwarded in it and never exceeds the
+    global limit.  (With overlapping cycles the counter loses updates by design — the code's own
+    docstring — and the limit is not claimed.) -/
+theorem drl_sequential_window_bound (W N n : Nat) (rs : List (Nat × Nat × Nat × Nat × Nat)) (w : Nat) :
+    (DRL.serveAll W N (DRL.init n) rs).fwdWin.count w = (DRL.serveAll W N (DRL.init n) rs).count w ∧
+    (DRL.serveAll W N (DRL.init n) rs).fwdWin.count w ≤ N := by
+  have h := DRL.serveAll_seq W N rs (DRL.init n)
+    ⟨rfl, fun w => by simp [DRL.init, DRL.count]⟩
+  have := h.2 w
+  omega
+
+/-- two instances, limit 1, window 10 ns: served one after the other the second request of window 0 is
+    rejected (globally, by the other instance's counter) and the one in window 1 forwarded; interleaved
+    (both read 0 before either writes) both are forwarded — the lost update -/
+example :
+    (DRL.serveAll 10 1 (DRL.init 2) [(0, 0, 0, 1, 2), (1, 1, 3, 4, 5), (1, 2, 10, 11, 12)]).fwd.reverse =
+      [(0, 0, 2), (1, 2, 12)] ∧
+    (DRL.serveAll 10 1 (DRL.init 2) [(0, 0, 0, 1, 2), (1, 1, 3, 4, 5), (1, 2, 10, 11, 12)]).dropped = [1] ∧
+    (DRL.run 10 1 (DRL.init 2) [.arr 0 0 0, .arr 1 1 0, .res 0 0 1, .res 1 1 1, .res 0 0 2, .res 1 1 2]).fwd.reverse =
+      [(0, 0, 2), (1, 1, 2)] ∧
+    (dReqIds [.arr 0 0 0, .arr 1 1 0, .res 0 0 1, .res 1 1 1, .res 0 0 2, .res 1 1 2]).Nodup := by decide
 
 end HappyModel.C10
